@@ -3,6 +3,10 @@
  * extracted C over the same poisoned globals (fidelity), and evaluates the
  * ownership postcondition for a CBMC counterexample (replay). */
 #include "LiveOutputManager.hpp"
+#include "Task.hpp"
+#include "ThreadSafeVector.hpp"
+#include <sys/wait.h>
+#include <unistd.h>
 #include "cm_replay.hpp"
 #include <new>
 
@@ -58,9 +62,42 @@ static int fidelity(uint64_t, long) {
   return 0;
 }
 
+/* leak detection is not what this driver is for (the extracted constructor's stand-in allocations are never freed) */
+extern "C" const char *__asan_default_options() { return "detect_leaks=0"; }
+
+/* slot pool: the running index only ever grows; after slots have been freed and reused it exceeds the pool size.
+ * clear_after must still stay inside the pool arrays (this driver is built with AddressSanitizer; the scenario runs
+ * in a child process so that a detected overflow is an observation, not a crash of the driver). */
+static int pool_scenario(bool verbose) {
+  pid_t pid = fork();
+  if (pid == 0) {
+    ThreadSafeVector< Task > pool(8, "pool");
+    size_t keep[3];
+    for (int i = 0; i < 3; ++i) keep[i] = pool.get_free_element();
+    for (int r = 0; r < 40; ++r) { const size_t a = pool.get_free_element(); const size_t b = pool.get_free_element(); pool.free_element(a); pool.free_element(b); }
+    pool.clear_after(3);
+    /* every slot from 3 on must be free again: taking 5 slots must work */
+    for (int i = 0; i < 5; ++i) (void)pool.get_free_element();
+    (void)keep;
+    _exit(0);
+  }
+  int st = 0;
+  waitpid(pid, &st, 0);
+  if (!(WIFEXITED(st) && WEXITSTATUS(st) == 0)) {
+    if (verbose) std::printf("REPRODUCED: ThreadSafeVector<Task>(8): after 83 slot grants (running index > pool size) clear_after(3) accessed memory outside the pool arrays (AddressSanitizer / abnormal exit of the scenario process)\n");
+    return 1;
+  }
+  return 0;
+}
+
 static int replay(const char *path) {
   CMInputs in;
   if (!in.load(path)) return 2;
+  if (in.job.find("element") != std::string::npos || in.job.find("clear_after") != std::string::npos) {
+    int b = pool_scenario(true);
+    if (!b) std::printf("NOT-REPRODUCED\n");
+    return b;
+  }
   Flags f = {in.u64("in_enabled") != 0, in.u64("in_sd") != 0, in.u64("in_sdi") != 0, in.u64("in_dpdf") != 0, in.u64("in_vpdf") != 0};
   unsigned poisoned = 0;
   unsigned mask = real_ctor(f, poisoned);
